@@ -16,6 +16,7 @@ import FB.MakeRoom
 import FB.MakeRoomF
 import FB.MakeDirsF
 import FB.Commit
+import FB.PrepareF
 import FB.Conc
 import FB.ConcDirs
 import FB.ConcDirsF
@@ -486,6 +487,24 @@ def runRB (j : Lean.Json) : Except String Lean.Json := do
   let r : FB.Rollback.RB := { createdDirs, newOutputs, oldOutputs, oldCreatedDirs, bk := { saved, absent } }
   return Json.mkObj [("tree", showTree (FB.Rollback.rollBack fs r))]
 
+/-- `_prepare_file_creation` (`FB.PrepareF`): `_make_room` where the target is an unknown directory, then `_make_dirs`;
+    the `failAt`-th mutating call of either fails -/
+def runPR (j : Lean.Json) : Except String Lean.Json := do
+  let fs ← parseTree (← j.getObjVal? "tree")
+  let target := parsePath (← (← j.getObjVal? "target").getStr?)
+  let dirs ← getPaths (← j.getObjVal? "dirs")
+  let oldCreated ← getPaths (← j.getObjVal? "oldCreated")
+  let virtDirs ← getPaths (← j.getObjVal? "virtDirs")
+  let virtFiles ← getPaths (← j.getObjVal? "virtFiles")
+  let k ← (← j.getObjVal? "failAt").getNat?
+  let o := FB.PrepareF.prepare (fun p => virtDirs.contains p) (fun p => virtFiles.contains p) oldCreated (some k) 64 fs {} target dirs
+  return Json.mkObj [
+    ("outcome", .str (match o.kind with | .ok => "ok" | .isADir => "IsADirectoryError" | .osError => "OSError")),
+    ("tree", showTree o.st.fs), ("calls", .num (.fromNat o.n)),
+    ("saved", .arr (o.st.bk.saved.map fun (p, e) => match e with
+        | .file c m => Lean.Json.arr #[.str (showPath p), .str c, .num (.fromNat m)]
+        | .dir => Lean.Json.arr #[.str (showPath p), .str "dir"]).toArray)]
+
 /-- `_commit` (`FB.Commit`): the physical tree, the answers of the virtual tree, the bookkeeping it reads -/
 def runCM (j : Lean.Json) : Except String Lean.Json := do
   let fs ← parseTree (← j.getObjVal? "tree")
@@ -566,6 +585,7 @@ def handle (line : String) : Lean.Json :=
       | "md" => runMD j
       | "mr" => runMR j
       | "cm" => runCM j
+      | "pr" => runPR j
       | "heap" => FB.Heap.heapRequest j
       | k => throw s!"unknown kind {k}"
     match r with
